@@ -408,3 +408,74 @@ func renameOverlay(pkgs []*packages.Package, ren map[*types.Func]string, base ma
 	}
 	return out
 }
+
+// ---------------------------------------------------------------------------
+// A struct's responsibilities may be split into an embedded unexported struct (`Bridge` embeds a new
+// `bridgeEndpoints` that takes over some of its fields). The fields are still fields of the outer
+// object for every purpose of the rules: a struct type the reference does not know, embedded in
+// exactly one struct the reference knows (same package), is described under the outer type's name.
+
+var embedOwner map[string]string // key of the new embedded struct -> key of its unique known embedder
+
+func computeEmbedOwners() {
+	if embedOwner != nil || theProg == nil {
+		return
+	}
+	embedOwner = map[string]string{}
+	if fieldNamesRef == nil {
+		fieldNamesRef = map[string][]string{}
+		_ = json.Unmarshal(fieldNamesJSON, &fieldNamesRef)
+	}
+	count := map[string]int{}
+	first := map[string]string{}
+	for path, sp := range theProg.SSAPkgs {
+		if !strings.HasPrefix(path, Module) {
+			continue
+		}
+		for _, m := range sp.Members {
+			tm, ok := m.(*ssa.Type)
+			if !ok {
+				continue
+			}
+			st, ok := tm.Type().Underlying().(*types.Struct)
+			if !ok {
+				continue
+			}
+			outer := structKey(tm.Type())
+			if _, known := fieldNamesRef[outer]; !known {
+				continue
+			}
+			for i := 0; i < st.NumFields(); i++ {
+				if !st.Field(i).Embedded() {
+					continue
+				}
+				inner := structKey(st.Field(i).Type())
+				if inner == "" || !strings.HasPrefix(inner, path+".") {
+					continue
+				}
+				if _, known := fieldNamesRef[inner]; known {
+					continue
+				}
+				count[inner]++
+				first[inner] = outer
+			}
+		}
+	}
+	for k, n := range count {
+		if n == 1 {
+			embedOwner[k] = first[k]
+		}
+	}
+}
+
+// ownerTypeName is recvTypeName for the owner of a field: an embedded helper struct introduced since
+// the reference is named after the struct that embeds it.
+func ownerTypeName(t types.Type) (pkg, name string) {
+	pkg, name = recvTypeName(t)
+	computeEmbedOwners()
+	if o, ok := embedOwner[structKey(t)]; ok {
+		i := strings.LastIndex(o, ".")
+		return o[:i], o[i+1:]
+	}
+	return
+}
